@@ -41,6 +41,11 @@ def parseCall (c : String) : Call :=
     | "vbuild", none, [] => .vbuild
     | "f", some h, [t, k, a] =>
       match t.toNat?, scalarEnc k a with | some t, some e => .f h t e | _, _ => .bad
+    | "fw", some h, [t, a, "ok"] =>
+      match t.toNat?, parseHex a with | some t, some b => .f h t b | _, _ => .bad
+    | "fw", some h, [_, _, "fail"] => .fwfail h
+    | "ew", some h, [a, "ok"] => match parseHex a with | some b => .e h b | none => .bad
+    | "ew", some h, [_, "fail"] => .ewfail h
     | "fany", some h, [t, a] =>
       match t.toNat?, parseHex a with | some t, some b => .f h t b | _, _ => .bad
     | "fmsg", some h, [t] => match t.toNat? with | some t => .fmsg h t | none => .bad
